@@ -42,6 +42,7 @@ func MakeNextVer(version string) string {
 			}
 			val, overflow := incrementDecimal(version[pos:])
 			if overflow {
+				version = version[:pos]
 				continue versionSegmentLoop
 			}
 			return version[:pos] + val
